@@ -32,7 +32,8 @@ ASSUMPTIONS = [
 ]
 FLOORS = {"hierarchies:override": 0.1, "hierarchies:noninit-noncompare": 0.1, "hierarchies:levels>=2": 0.3}
 
-PROP_KINDS = {"int": ("int", "3"), "str": ("str", '"s"'), "bool": ("bool", "True"), "optint": ("int | None", "None")}
+PROP_KINDS = {"int": ("int", "3"), "str": ("str", '"s"'), "bool": ("bool", "True"), "optint": ("int | None", "None"),
+              "enum": ("Color", "Color.RED"), "fsenum": ("frozenset[Color]", "frozenset()")}
 CHILD_KINDS = ["one", "opt", "union", "tuple", "fixed"]
 SYSTEM = ("id", "content_id", "origin")
 
@@ -42,6 +43,10 @@ def ann_of(kind: str) -> dict:
     if kind in PROP_KINDS:
         if kind == "optint":
             return {"k": "union", "of": [{"k": "scalar", "n": "int"}, {"k": "none"}], "pipe": True}
+        if kind == "enum":  # a module-level non-node name (a node class of that name exists in another module)
+            return {"k": "enum"}
+        if kind == "fsenum":
+            return {"k": "frozenset", "of": {"k": "enum"}}
         return {"k": "scalar", "n": kind}
     return {
         "one": n("NodeA"), "opt": {"k": "opt", "of": n("NodeA")},
@@ -122,7 +127,9 @@ def make_instance(mod: CF.Module, cls: Any, eff: list[dict], variant: int) -> tu
             continue
         kind = f["kind"]
         if kind in PROP_KINDS:
-            kw[f["name"]] = {"int": 10 + j, "str": f"v{j}", "bool": j % 2 == 0, "optint": None if variant == 1 else j}[kind]
+            color = mod.mod.__dict__["Color"]
+            kw[f["name"]] = {"int": 10 + j, "str": f"v{j}", "bool": j % 2 == 0, "optint": None if variant == 1 else j,
+                             "enum": color.GREEN, "fsenum": frozenset({color.RED})}[kind]
         elif kind == "one":
             kw[f["name"]] = F(n=j) if variant == 2 else A(n=j)
         elif kind == "opt":
